@@ -188,8 +188,9 @@ def run(cx: Cx):
 
     check_no_swallow(cx, [BR, RUN, BATCH + '_build_model_from_kwargs'])
     # the work list is ParameterList.build(): every combination once, as independent dictionaries (C14's build rules)
-    from .c14 import check_build
+    from .c14 import check_build, check_declaration
     check_build(cx)
+    check_declaration(cx)
     check_atomic(cx, BR, ['AttributeError'], must_have=True)
     # the collectors argument is validated before any work
     from sa.terms import AIs as _AIs, AIsInst, f_or, compare
@@ -208,6 +209,8 @@ def run(cx: Cx):
         cx.violation('R-GUARD', fn.qualname, 'collectors-validated-before-any-work',
                      "batch_run does not reject an invalid `collectors` argument (not None / str / Iterable) with AttributeError "
                      "before building the parameter list or running anything", where=cx.where(fn))
+    from .common import check_no_stateful_memo
+    check_no_stateful_memo(cx)
 
 
 def _is_str(t):
